@@ -30,17 +30,17 @@ theorem hintAhead_nl (R : Str) : hintAhead ('\n' :: R) = hintAhead R := by
 /-- With nothing in sight after the line break, what is in sight from inside a line is decided by
 the line alone. -/
 theorem hintAhead_local (s R : Str) (hR : hintAhead R = false) : hintAhead (s ++ '\n' :: R) = hintAhead s := by
-  by_cases hex : ∃ c ∈ s, isSpaceRe c = false
+  by_cases hex : ∃ c ∈ s, isSpacePy c = false
   · unfold hintAhead
     rw [dropWhile_append_of_exists s _ hex, m14_prefix_sep]
-  · have hall : ∀ c ∈ s, isSpaceRe c = true := by
+  · have hall : ∀ c ∈ s, isSpacePy c = true := by
       intro c hc
-      cases h : isSpaceRe c with
+      cases h : isSpacePy c with
       | true => rfl
       | false => exact absurd ⟨c, hc, h⟩ hex
     unfold hintAhead at hR ⊢
     rw [List.dropWhile_append_of_pos hall, List.dropWhile_cons_of_pos (by decide), hR]
-    have : s.dropWhile isSpaceRe = [] := by
+    have : s.dropWhile isSpacePy = [] := by
       have := List.dropWhile_append_of_pos (l₂ := []) hall
       simpa using this
     rw [this]; rfl
@@ -103,13 +103,13 @@ theorem subHints_sublist (s : Str) : ∀ b, (subHints b s).Sublist s := by
       · exact (ih false).cons_cons c
 
 /-- What is kept of a line that is not blank and is not a hint comment alone is not blank. -/
-theorem subHints_keeps_nonblank (l : Str) (h : hintAhead l = false) (hex : ∃ c ∈ l, isSpaceRe c = false) :
-    ∃ x ∈ subHints false l, x ∈ l ∧ isSpaceRe x = false := by
+theorem subHints_keeps_nonblank (l : Str) (h : hintAhead l = false) (hex : ∃ c ∈ l, isSpacePy c = false) :
+    ∃ x ∈ subHints false l, x ∈ l ∧ isSpacePy x = false := by
   induction l with
   | nil => simp at hex
   | cons c t ih =>
     simp only [subHints, Bool.false_and, Bool.false_eq_true, if_false, h]
-    by_cases hc : isSpaceRe c = true
+    by_cases hc : isSpacePy c = true
     · have ht : hintAhead t = false := by
         unfold hintAhead at h ⊢
         rwa [List.dropWhile_cons_of_pos hc] at h
@@ -194,14 +194,14 @@ theorem count_stripPy (ks : List Str) (hnl : ∀ k ∈ ks, '\n' ∉ k)
 /-! ### Lines: the number of lines survives `remove_hints` -/
 
 theorem subHints_keeps_nonblank' (l X : Str) (h : hintAhead (l ++ X) = false)
-    (hex : ∃ c ∈ l, isSpaceRe c = false) :
-    ∃ x ∈ subHints false (l ++ X), x ∈ l ∧ isSpaceRe x = false := by
+    (hex : ∃ c ∈ l, isSpacePy c = false) :
+    ∃ x ∈ subHints false (l ++ X), x ∈ l ∧ isSpacePy x = false := by
   induction l with
   | nil => simp at hex
   | cons c t ih =>
     simp only [List.cons_append] at h ⊢
     simp only [subHints, Bool.false_and, Bool.false_eq_true, if_false, h]
-    by_cases hc : isSpaceRe c = true
+    by_cases hc : isSpacePy c = true
     · have ht : hintAhead (t ++ X) = false := by
         unfold hintAhead at h ⊢
         rwa [List.dropWhile_cons_of_pos hc] at h
@@ -227,9 +227,8 @@ comment alone, whose first and last lines are not blank, when white space means 
 `str.strip` and for the regex engine on those two lines. -/
 theorem lineCount_removeHints (ls : List (Str × Str)) (hne : ls ≠ [])
     (hgood : ∀ p ∈ ls, GoodLine p.1 p.2)
-    (hfirst : ∀ p, ls.head? = some p → ∃ c ∈ p.1, isSpaceRe c = false)
-    (hlast : ∀ p, ls.getLast? = some p → ∃ c ∈ p.1, isSpaceRe c = false)
-    (hfs : ∀ p ∈ ls, ∀ c ∈ p.1, isSpaceRe c = false → isSpacePy c = false) :
+    (hfirst : ∀ p, ls.head? = some p → ∃ c ∈ p.1, isSpacePy c = false)
+    (hlast : ∀ p, ls.getLast? = some p → ∃ c ∈ p.1, isSpacePy c = false) :
     lineCount (removeHints (joinNL (ls.map fun p => p.1 ++ p.2))) =
       lineCount (joinNL (ls.map fun p => p.1 ++ p.2)) := by
   let txt := ls.map fun p => p.1 ++ p.2
@@ -241,11 +240,11 @@ theorem lineCount_removeHints (ls : List (Str × Str)) (hne : ls ≠ [])
   have hkeepnl : ∀ k ∈ txt.map (subHints false), '\n' ∉ k := by
     intro k hk; simp only [List.mem_map] at hk; obtain ⟨l, hl, rfl⟩ := hk
     exact fun h => hnl l hl ((subHints_sublist l false).subset h)
-  have hend : ∀ p ∈ ls, (∃ c ∈ p.1, isSpaceRe c = false) →
+  have hend : ∀ p ∈ ls, (∃ c ∈ p.1, isSpacePy c = false) →
       ∃ c ∈ subHints false (p.1 ++ p.2), isSpacePy c = false := by
     intro p hp hex
     obtain ⟨x, hx, hxl, hxs⟩ := subHints_keeps_nonblank' p.1 p.2 (hgood p hp).ahead hex
-    exact ⟨x, hx, hfs p hp x hxl hxs⟩
+    exact ⟨x, hx, hxs⟩
   show lineCount (removeHints (joinNL txt)) = lineCount (joinNL txt)
   rw [lineCount_eq, lineCount_eq, removeHints, subHints_joinNL txt hnl hah,
     count_stripPy _ hkeepnl
@@ -355,10 +354,10 @@ theorem trim_both_props {α : Type} (p : α → Bool) (ls : List α) :
     rw [hh] at this
     exact this
 
-theorem not_blankPy_exists (l : Str) (h : blankPy l = false) : ∃ c ∈ l, isSpaceRe c = false := by
+theorem not_blankPy_exists (l : Str) (h : blankPy l = false) : ∃ c ∈ l, isSpacePy c = false := by
   simp only [blankPy, List.all_eq_false] at h
   obtain ⟨x, hx, hs⟩ := h
-  exact ⟨x, hx, not_isSpacePy_of x (by simpa using hs)⟩
+  exact ⟨x, hx, by simpa using hs⟩
 
 theorem hintAhead_of_kept (l : Str) (h : isolatedRest l = none) : hintAhead l = false := by
   cases hh : hintAhead l with
@@ -416,14 +415,14 @@ theorem dropWhile_length_ge {p : Char → Bool} (u v : Str) (hv : ∀ c, v.head?
     · simp; omega
 
 theorem hintAhead_kept_append (l X1 toks : Str) (hk : isolatedRest l = none)
-    (hex : ∃ c ∈ l, isSpaceRe c = false)
+    (hex : ∃ c ∈ l, isSpacePy c = false)
     (hX : (hasInfix (' ' :: m13) l = true ∧ X1 = []) ∨ (X1 = ' ' :: m13)) :
     hintAhead (l ++ (X1 ++ toks)) = false := by
   have hah := hintAhead_of_kept l hk
   unfold hintAhead at hah ⊢
   rw [dropWhile_append_of_exists l _ hex]
   have hane := dropWhile_ne_nil_of_exists l hex
-  have h13 : l.dropWhile isSpaceRe ≠ m13 := by
+  have h13 : l.dropWhile isSpacePy ≠ m13 := by
     intro e
     have : isolatedRest l = some [] := by simp [isolatedRest, e, m13]
     rw [hk] at this; cases this
@@ -432,7 +431,7 @@ theorem hintAhead_kept_append (l X1 toks : Str) (hk : isolatedRest l = none)
   · right
     rw [hasInfix_iff] at hin
     obtain ⟨pre, suf, rfl⟩ := hin
-    have := dropWhile_length_ge (p := isSpaceRe) (pre ++ [' ']) (m13 ++ suf)
+    have := dropWhile_length_ge (p := isSpacePy) (pre ++ [' ']) (m13 ++ suf)
       (by intro c hc; simp [m13] at hc; subst hc; decide)
     simp only [List.append_assoc, List.cons_append, List.nil_append] at this ⊢
     simp only [List.length_append, m13, List.length_cons, List.length_nil] at this ⊢
@@ -517,8 +516,8 @@ it; no line is a hint comment alone; the first and the last are not blank. -/
 theorem centrifugate_structure (T c : Str) (h : centrifugate T = .ok c) :
     c = [] ∨ ∃ ls : List (Str × Str), ls ≠ [] ∧ c = joinNL (ls.map fun p => p.1 ++ p.2) ∧
       (∀ p ∈ ls, GoodLine p.1 p.2) ∧
-      (∀ p, ls.head? = some p → ∃ c ∈ p.1, isSpaceRe c = false) ∧
-      (∀ p, ls.getLast? = some p → ∃ c ∈ p.1, isSpaceRe c = false) ∧
+      (∀ p, ls.head? = some p → ∃ c ∈ p.1, isSpacePy c = false) ∧
+      (∀ p, ls.getLast? = some p → ∃ c ∈ p.1, isSpacePy c = false) ∧
       ∀ p ∈ ls, p.1 ∈ splitNL T := by
   unfold centrifugate at h
   obtain ⟨hk1, hk2⟩ := scan_props (splitNL T)
@@ -534,9 +533,9 @@ theorem centrifugate_structure (T c : Str) (h : centrifugate T = .ok c) :
     obtain ⟨_, hiso, hnl⟩ := hkept l hl
     exact ⟨by simpa using hnl, by simpa using hintAhead_of_kept l hiso⟩
   generalize hK : trimBlank (scanIsolated (splitNL T)).1 = K at h hkept hplain
-  have hhead' : ∀ l, K.head? = some l → ∃ c ∈ l, isSpaceRe c = false := by
+  have hhead' : ∀ l, K.head? = some l → ∃ c ∈ l, isSpacePy c = false := by
     intro l hl; rw [← hK] at hl; exact not_blankPy_exists l (hhead l hl)
-  have hlast' : ∀ l, K.getLast? = some l → ∃ c ∈ l, isSpaceRe c = false := by
+  have hlast' : ∀ l, K.getLast? = some l → ∃ c ∈ l, isSpacePy c = false := by
     intro l hl; rw [← hK] at hl; exact not_blankPy_exists l (hlast l hl)
   by_cases hh : (scanIsolated (splitNL T)).2 = []
   · -- no isolated hint: the kept lines
@@ -565,7 +564,7 @@ theorem centrifugate_structure (T c : Str) (h : centrifugate T = .ok c) :
         · exact openTok_chars t c hc
         · exact closeTok_chars t c hc)
     -- a line to which the marker and tokens are appended
-    have happ : ∀ l ∈ K, (∃ c ∈ l, isSpaceRe c = false) → ∀ toks, '\n' ∉ toks →
+    have happ : ∀ l ∈ K, (∃ c ∈ l, isSpacePy c = false) → ∀ toks, '\n' ∉ toks →
         ∃ X, addMarker l ++ toks = l ++ X ∧ GoodLine l X := by
       intro l hl hex toks htoks
       obtain ⟨_, hiso, hnl⟩ := hkept l hl
@@ -696,35 +695,11 @@ theorem trimEnds_sublist (s : Str) : ∀ c ∈ trimEnds s, c ∈ s := by
     exact (List.takeWhile_sublist _).subset this
   · exact (List.dropWhile_sublist _).subset h
 
-/-- No separator 0x1c–0x1f: `str.strip` and the regex `\s` agree on what white space is. -/
-def fsFree (c : Char) : Prop := ¬ (28 ≤ c.toNat ∧ c.toNat ≤ 31)
-
-theorem fsFree_py (c : Char) (h : fsFree c) (hs : isSpaceRe c = false) : isSpacePy c = false := by
-  simp only [isSpacePy, hs, Bool.false_or, Bool.and_eq_false_iff, decide_eq_false_iff_not]
-  simp only [fsFree] at h
-  omega
-
-theorem prepare_fsFree (src : Str) (h : ∀ c ∈ src, fsFree c) : ∀ c ∈ prepare src, fsFree c := by
-  intro c hc
-  have h1 := trimEnds_sublist _ c hc
-  rcases mem_joinNL _ c h1 with rfl | ⟨l, hl, hcl⟩
-  · simp [fsFree]
-  · simp only [List.mem_map] at hl
-    obtain ⟨l0, hl0, rfl⟩ := hl
-    rcases mem_normGo l0 .idle [] c hcl with h2 | h2 | h2
-    · simp at h2
-    · exact h c (mem_splitNL src l0 hl0 c h2)
-    · simp only [m14, m13, List.cons_append, List.nil_append, List.mem_cons, List.not_mem_nil, or_false] at h2
-      rcases h2 with rfl | rfl | rfl | rfl | rfl | rfl | rfl | rfl | rfl | rfl | rfl | rfl | rfl | rfl <;>
-        simp [fsFree]
-
 /-- **Every text**: the stored source has as many lines as the text the hints were numbered on. -/
-theorem lineCount_stored (src c : Str) (hfs : ∀ x ∈ src, fsFree x)
-    (hc : centrifugate (prepare src) = .ok c) : lineCount (removeHints c) = lineCount c := by
-  rcases centrifugate_structure _ c hc with rfl | ⟨ls, hne, rfl, hgood, hfirst, hlast, hmem⟩
+theorem lineCount_stored (T c : Str) (hc : centrifugate T = .ok c) :
+    lineCount (removeHints c) = lineCount c := by
+  rcases centrifugate_structure _ c hc with rfl | ⟨ls, hne, rfl, hgood, hfirst, hlast, _⟩
   · rfl
-  · apply lineCount_removeHints ls hne hgood hfirst hlast
-    intro p hp x hx hxs
-    exact fsFree_py x (prepare_fsFree src hfs x (mem_splitNL _ p.1 (hmem p hp) x hx)) hxs
+  · exact lineCount_removeHints ls hne hgood hfirst hlast
 
 end Paroxy.Hints
